@@ -225,9 +225,11 @@ Proof.
     [|apply res2_same; exact Ht].
   apply IH; exact Ht.
 Qed.
-Lemma G2_render_for body x len base : G2 body -> forall vs i, G2 (render_for_loop body x len base vs i).
+Lemma G2_render_for body x len base : G2 body -> (forall s1 s2, agree s1 s2 -> base s1 = base s2) ->
+  forall vs i, G2 (render_for_loop body x len base vs i).
 Proof.
-  intros Hb; induction vs as [|v vs IH]; intros i n m s1 s2 k H; [apply res2_same; exact H|]. cbn [render_for_loop].
+  intros Hb Hbase; induction vs as [|v vs IH]; intros i n m s1 s2 k H; [apply res2_same; exact H|]. cbn [render_for_loop].
+  rewrite (Hbase _ _ (R_agree _ _ _ _ H)). destruct (base s2) as [b0| | |]; cbn [of_res]; try (apply res2_same; exact H).
   match goal with |- context [body (push_sandbox ?a s1) k] =>
     specialize (Hb _ _ _ _ k (R_push_sandbox _ _ _ _ a H));
     destruct (body (push_sandbox a s1) k) as [[o1 t1] k1]; destruct (body (push_sandbox a s2) k) as [[o2 t2] k2] end.
@@ -317,7 +319,7 @@ Proof.
   - cbn [rnode]. rd HR. of2 HR. destruct a0; try (apply res2_same; exact HR).
     destruct f as [[rng x]|].
     + rd HR. of2 HR. destruct a0 as [|v0 vs0]; [apply res2_same; exact HR|]. of2 HR. of2 HR.
-      apply G2_render_for; [apply rec_G2|exact HR].
+      apply G2_render_for; [apply rec_G2|intros t1 t2 At; apply eval_args_agree; exact At|exact HR].
     + of2 HR. of2 HR.
       match goal with |- context [rec ?b (push_sandbox ?a s1) k] =>
         pose proof (rec_G2 b _ _ _ _ k (R_push_sandbox _ _ _ _ a HR)) as Hb;
@@ -361,12 +363,13 @@ Proof.
   intros (F & g & a & q1 & q2 & G & r1 & r2 & E1 & E2 & L & N & G1 & G2' & LG & IX).
   destruct F; [|discriminate]. unfold pop_sandbox, above in *. cbn [fr]. rewrite E1, E2. exact IX.
 Qed.
-Lemma render_for_ni body x len base : G2 body -> forall vs i s1 s2 k, ixobj (fr s1) = ixobj (fr s2) ->
+Lemma render_for_ni body x len base : G2 body -> (forall t1 t2, base t1 = base t2) -> forall vs i s1 s2 k, ixobj (fr s1) = ixobj (fr s2) ->
   match render_for_loop body x len base vs i s1 k, render_for_loop body x len base vs i s2 k with
   | (o1, t1, k1), (o2, t2, k2) => o1 = o2 /\ k1 = k2 /\ ixobj (fr t1) = ixobj (fr t2)
   end.
 Proof.
-  intros Hb. induction vs as [|v vs IH]; intros i s1 s2 k IX; [repeat split; auto|]. cbn [render_for_loop].
+  intros Hb Hbase. induction vs as [|v vs IH]; intros i s1 s2 k IX; [repeat split; auto|]. cbn [render_for_loop].
+  rewrite (Hbase s1 s2). destruct (base s2) as [b0| | |]; cbn [of_res]; try (repeat split; auto; fail).
   match goal with |- context [body (push_sandbox ?r s1) k] =>
     pose proof (Hb 0 0 _ _ k (R_fresh_sandbox r s1 s2 IX)) as H;
     destruct (body (push_sandbox r s1) k) as [[o1 t1] k1]; destruct (body (push_sandbox r s2) k) as [[o2 t2] k2] end.
@@ -374,14 +377,17 @@ Proof.
   destruct o2; try (repeat split; auto). rewrite Eg.
   destruct (match r_intr (get_regs t2) with Some Brk => true | _ => false end); [repeat split; auto|apply IH; exact IX'].
 Qed.
+(* the arguments of the for-form are evaluated again for every item in the caller's runtime, which the
+   partial may have changed through the shared counters: the statement is for arguments whose value does not
+   depend on the runtime (literals) *)
 Theorem render_for_noninterference O ps d p rng x args s1 s2 k :
-  eval_expr O p s1 = eval_expr O p s2 -> eval_range O rng s1 = eval_range O rng s2 -> eval_args O args s1 [] = eval_args O args s2 [] ->
+  eval_expr O p s1 = eval_expr O p s2 -> eval_range O rng s1 = eval_range O rng s2 -> (forall t1 t2, eval_args O args t1 [] = eval_args O args t2 []) ->
   ixobj (fr s1) = ixobj (fr s2) ->
   match rnode O ps (render O ps d) (NRender p (Some (rng, x)) args) s1 k, rnode O ps (render O ps d) (NRender p (Some (rng, x)) args) s2 k with
   | (o1, _, k1), (o2, _, k2) => o1 = o2 /\ k1 = k2
   end.
 Proof.
-  intros Ep Er Ea IX. cbn [rnode]. rewrite Ep, Er, Ea.
+  intros Ep Er Ea IX. cbn [rnode]. rewrite Ep, Er, (Ea s1 s2).
   destruct (eval_expr O p s2) as [pv| | |]; cbn [of_res]; try (split; reflexivity).
   destruct pv; try (split; reflexivity).
   destruct (eval_range O rng s2) as [arr| | |]; cbn [of_res]; try (split; reflexivity).
@@ -389,7 +395,7 @@ Proof.
   destruct (eval_args O args s2 []) as [a| | |]; cbn [of_res]; try (split; reflexivity).
   match goal with |- context [of_res ?r s1 k _] => destruct r as [body| | |]; cbn [of_res]; try (split; reflexivity) end.
   match goal with |- context [render_for_loop ?b ?x ?len ?base ?vs ?i s1 k] =>
-    pose proof (render_for_ni b x len base (G2_render O ps d body) vs i s1 s2 k IX) as H;
+    pose proof (render_for_ni b x len base (G2_render O ps d body) Ea vs i s1 s2 k IX) as H;
     destruct (render_for_loop b x len base vs i s1 k) as [[o1 t1] k1]; destruct (render_for_loop b x len base vs i s2 k) as [[o2 t2] k2] end.
   destruct H as (-> & -> & _). split; reflexivity.
 Qed.
